@@ -209,3 +209,27 @@ register(
     ],
     probes=["model_replaced", "method_replaced", "inner_fit_failed"],
 )
+
+register(
+    "C01",
+    quick=4000,
+    thorough=150000,
+    level="exploration",
+    rule=(
+        "one run = two or three live instances of one exported class (30 classes: sklapi bases and wrappers incl. "
+        "stacking of 1..13 members, every estimator of mlmodel.__init__, reciprocal transformers, "
+        "ARTimeSeriesRegressor) built from independently drawn configurations, driven through 4..18 protocol "
+        "operations: get_params(deep / shallow), set_params(k=v) for an advertised key with a value different from "
+        "the current one (numbers, strings from the legal set, None<->int, another estimator, a new list), "
+        "set_params(**other.get_params(deep=True)) (aliasing nested objects between instances), clone, replace by "
+        "clone, fit on tiny data; reference model = the flat parameter dict per instance with a frame condition; "
+        "behavioural equality of transplanted instances is checked by fitting clones of both; "
+        "non-trivial = every run; distinct = distinct (class, number of instances, operation sequence)"
+    ),
+    assumptions=[
+        "no fault, schedule or entropy dimension exists for this property: the simulator contributes generated histories, the dict reference model, replay and minimisation only",
+        "string parameters are only changed to values of a known legal set (constructors such as ConstraintKMeans validate them)",
+        "QuantileMLPRegressor is not exercised (its constructor raises under scikit-learn 1.9: the parent MLP no longer accepts the forwarded arguments); ARTimeSeriesRegressor takes part in the protocol checks only",
+    ],
+    probes=["set_nested", "set_top", "set_index_ge_10", "transplant_done", "behaviour_compared", "aliasing_between_instances", "fit_between_protocol_calls"],
+)
